@@ -10,6 +10,38 @@
    read as "the members in SOME order chosen by the runtime"; the theorems say the results do not
    depend on that order.
 
+   Every `range` over a map in geom/ (non-test, non-debug code), classified:
+   (i)  result canonicalised afterwards   (ii) fold/closure that is order-free   (iii) order can leak
+     dcel_input.go:addVertices (range interactions)            (ii) independent inserts into a map
+     dcel_fixup.go:fixVertices (range d.vertices)              (ii) writes prev of edges leaving / next of edges
+                                                                    entering THAT vertex only: disjoint
+     dcel_fixup.go:fixVertex (range v.incidents)               (i)  sorted by radialLess when > 2 (used cyclically;
+                                                                    <= 2 members have one cyclic order) - strictness
+                                                                    of radialLess not proved here, explored
+     dcel_fixup.go:assignFaces (range d.halfEdges)             order of d.faces and each face's representative edge
+                                                                    follow the map; consumers: label flood fill (ii,
+                                                                    reachability), extractPolygons (i, sort +
+                                                                    rotate_to_min), matrix (ii)
+     dcel_fixup.go:populateInSetLabels (vertices, halfEdges)   (ii) [populate_labels_order_free], including the read
+                                                                    of e.prev.inSet that may still be unset
+     dcel_extract_geometry.go:extractPolygons (range facesInPoly)   (i) [order_rings_perm_invariant, rotate_to_min_invariant]
+     dcel_extract_geometry.go:findFacesMakingPolygon (pop from toExpand)  (ii) connected component as a set
+     dcel_extract_geometry.go:extractLineStrings (range d.halfEdges)  (i) [orient_edge_twin_invariant + sort]
+     dcel_extract_geometry.go:extractPoints (range d.vertices)        (i) sort by XY.Less
+     dcel_extract_intersection_matrix.go (vertices, halfEdges)  (ii) [intersection_matrix_order_free]
+     dcel_extract_intersection_matrix.go:vertexRecord.location (first of range v.incidents)
+                                                                (ii) only if all incident edges agree
+                                                                    [pick_location_order_free]; explored, no
+                                                                    disagreement exhibited
+     dcel_node_set.go:nodeSet.list (range s.nodes)              (iii) feeds the bulk load of the point index; the
+                                                                    R-tree visiting order reaches reNodeLineString's
+                                                                    cuts, which were sorted by distance ONLY: distinct
+                                                                    cuts at equal distance kept their discovery order.
+                                                                    EXHIBITED (finding F140, fixes/F140.patch breaks
+                                                                    the tie by XY.Less; then class (i))
+     graph.go:hasCycle (three ranges)                           (ii) existence of a cycle
+     geojson_unmarshal.go (range hasLength), geojson_feature_collection.go (range topLevel)  (ii) boolean or / map build
+
    sort.Slice is a standard-library oracle (DESIGN.md section 4): its contract is "the result is a
    permutation of the input that is sorted for the comparison". [isort] is one function with
    that contract; [sort_perm_unique] (Proofs) shows every function with that contract returns
